@@ -23,6 +23,8 @@ type Config struct {
 	MaxPaths       int
 	StepLimit      int64 // basic blocks per path
 	QueryTimeoutMs int
+	// CrossCheckEvery > 0: every n-th assertion query answered unsat is also put to the other z3 build
+	CrossCheckEvery int
 	Deadline       time.Duration
 	Solver         string
 	Trace          bool
@@ -102,6 +104,8 @@ type Worker struct {
 	assertSat     int
 	assertUnsat   int
 	assertUnknown int
+	crossChecked  int
+	crossDisagree int
 }
 
 func (e *Engine) newInterpreter(w *Worker) *interpreter {
@@ -430,6 +434,8 @@ type Report struct {
 	AssertSat       int
 	AssertUnsat     int
 	AssertUnknown   int
+	CrossChecked    int
+	CrossDisagree   int
 	FeasQueries     int
 	Wall            time.Duration
 	InitFailures    map[string]string
@@ -550,6 +556,8 @@ func (e *Engine) Explore(fn *ssa.Function) *Report {
 			r.AssertSat += w.assertSat
 			r.AssertUnsat += w.assertUnsat
 			r.AssertUnknown += w.assertUnknown
+			r.CrossChecked += w.crossChecked
+			r.CrossDisagree += w.crossDisagree
 			for f := range w.i.seen {
 				if f.Pkg != nil && strings.HasPrefix(f.Pkg.Pkg.Path(), e.Cfg.ModulePrefix) {
 					x.funcs[f.String()] = true
